@@ -66,3 +66,43 @@ package certs
 //@     before[base_advances_to_the_finalized_head] base == res(Head, 1)
 //@   at return 0
 //@     before[rejection_reports_exactly_the_valid_prefix] arg(3) != nil ==> arg(0) == nextInstance && arg(1) == chain && arg(2) == prevPowerTable
+
+// ---------------------------------------------------------------------------------------------------------------
+// Power-table deltas.
+//@ pred deltaIsZero(d PowerTableDelta) = d.PowerDelta == 0 && len(d.SigningKey) == 0
+
+//@ func (*PowerTableDelta).IsZero
+//@   property C04
+//@   pure
+//@   ensures result == deltaIsZero(*d)
+
+// A delta that application accepts is strictly sorted by participant and has no empty entry (so it can only be
+// the canonical delta between its input and output); the accepted map is the one passed in.
+//@ pred diffCanonicalShape(diff PowerTableDiff, n mathint) = forall(k, 0, n, !deltaIsZero(diff[k]) && (k > 0 ==> diff[k-1].ParticipantID < diff[k].ParticipantID))
+
+//@ func ApplyPowerTableDiffsToMap
+//@   property C04
+//@   modifies powerTableMap[]
+//@   ensures[accepted_deltas_are_strictly_sorted_without_empty_entries] result1 == nil ==>
+//@        forall(j, 0, len(diffs), diffCanonicalShape(diffs[j], len(diffs[j])))
+//@   ensures result1 == nil ==> result0 == powerTableMap
+//@   ensures result1 != nil ==> result0 == nil
+//@   loop 1
+//@     invariant forall(j, 0, iter, diffCanonicalShape(diffs[j], len(diffs[j])))
+//@   loop 2
+//@     invariant forall(j, 0, iter1, diffCanonicalShape(diffs[j], len(diffs[j])))
+//@     invariant diffCanonicalShape(diff, iter) && (iter > 0 ==> lastActorId == diff[iter-1].ParticipantID)
+
+//@ func PowerTableArrayToMap
+//@   property C04
+//@   modifies nothing
+//@   ensures !allocated(result)
+
+// "malformed deltas are rejected without modifying the caller's table": nothing that existed before the call
+// changes, on every path (the work is done on a fresh map and a fresh slice).
+//@ func ApplyPowerTableDiffs
+//@   property C04
+//@   modifies nothing
+//@   ensures[rejection_returns_no_table] result1 != nil ==> len(result0) == 0
+//@   ensures[accepted_deltas_are_strictly_sorted_without_empty_entries] result1 == nil ==>
+//@        forall(j, 0, len(diffs), diffCanonicalShape(diffs[j], len(diffs[j])))
